@@ -173,6 +173,15 @@ func race(cfg *solveCfg, name, q string) solveOut {
 	// no definite answer
 	v := "unknown"
 	to := 0
+	nerr := 0
+	for _, r := range all {
+		if r.verdict == "error" {
+			nerr++
+		}
+	}
+	if nerr == len(all) {
+		return solveOut{verdict: "error", solver: "all", output: "every solver rejected the query: " + trunc(all[0].out, 600)}
+	}
 	var outs []string
 	var secs float64
 	for _, r := range all {
